@@ -10,10 +10,10 @@ Open Scope Z_scope.
 Lemma mono_refl mu e s : Mono mu e s s.
 Proof. constructor; intros; try split; lia. Qed.
 
-Lemma step_facts cfg s e s' : Inv cfg s -> step cfg s e = Some s' ->
+Lemma step_facts cfg s e s' : faithful cfg -> Inv cfg s -> step cfg s e = Some s' ->
   Inv cfg s' /\ forall mu, additive mu -> Mono mu e s s'.
 Proof.
-  intros HI H. destruct e as [c k|c|b alt| |d]; cbn [step] in H.
+  intros Hf HI H. destruct e as [c k|c|b alt| |d]; cbn [step] in H.
   - unfold call_step in H. destruct (nth_error (cl s) c) as [pc|] eqn:Hn; [|discriminate].
     destruct pc; try discriminate. inversion H; subst s'; clear H.
     destruct k; solve_case HI.
@@ -26,22 +26,22 @@ Proof.
     solve_case HI.
 Qed.
 
-Lemma exec_facts cfg s e : Inv cfg s ->
+Lemma exec_facts cfg s e : faithful cfg -> Inv cfg s ->
   Inv cfg (exec cfg s e) /\ forall mu, additive mu -> Mono mu e s (exec cfg s e).
 Proof.
-  intros HI. unfold exec. destruct (step cfg s e) eqn:H.
+  intros Hf HI. unfold exec. destruct (step cfg s e) eqn:H.
   - eapply step_facts; eauto.
   - split; [exact HI | intros; apply mono_refl].
 Qed.
 
-Lemma run_inv_from cfg sched : forall s, Inv cfg s -> Inv cfg (run cfg s sched).
+Lemma run_inv_from cfg sched : faithful cfg -> forall s, Inv cfg s -> Inv cfg (run cfg s sched).
 Proof.
-  induction sched as [|e sched IH]; intros s HI; cbn; [exact HI|].
+  intros Hf. induction sched as [|e sched IH]; intros s HI; cbn; [exact HI|].
   apply IH. now apply exec_facts.
 Qed.
 
-Lemma run_inv cfg n sched : Inv cfg (run cfg (init n) sched).
-Proof. apply run_inv_from, init_inv. Qed.
+Lemma run_inv cfg n sched : faithful cfg -> Inv cfg (run cfg (init n) sched).
+Proof. intros Hf. apply run_inv_from; [exact Hf | apply init_inv]. Qed.
 
 Lemma run_app cfg s a b : run cfg s (a ++ b) = run cfg (run cfg s a) b.
 Proof. unfold run. apply fold_left_app. Qed.
@@ -167,6 +167,7 @@ Qed.
 Section WaitTrack.
 Variables (cfg : config) (w : nat) (mu : batch -> Z) (k : Z).
 Hypothesis Hmu : additive mu.
+Hypothesis Hf : faithful cfg.
 
 (* what is known about the tasks accepted before the Wait of client w started, by
    the program counter of w *)
@@ -185,7 +186,7 @@ Lemma wait_step s e : Inv cfg s -> k <= M_acc mu s -> G s ->
   G (exec cfg s e).
 Proof.
   intros HI Hk HG Hnc. unfold exec in *. destruct (step cfg s e) as [s'|] eqn:Hs; [|exact HG].
-  destruct (step_facts _ _ _ _ HI Hs) as [HI' HM]. specialize (HM mu Hmu).
+  destruct (step_facts _ _ _ _ Hf HI Hs) as [HI' HM]. specialize (HM mu Hmu).
   pose proof (i_cons _ _ HI' mu Hmu) as Hc'.
   pose proof Hmu as (Hmu0 & Hmuapp & Hmunn).
   pose proof (Hmunn (unentered s')) as Hun'. rewrite (mu_unentered mu s' Hmu) in Hun'.
@@ -224,7 +225,7 @@ Lemma wait_track : forall evs s, Inv cfg s -> k <= M_acc mu s -> G s ->
 Proof.
   induction evs as [|e evs IH]; intros s HI Hk HG Hev; cbn; [exact HG|].
   inversion Hev as [|? ? He Hev']; subst.
-  destruct (exec_facts cfg s e HI) as [HI' HM]. pose proof (m_acc _ _ _ _ (HM mu Hmu)).
+  destruct (exec_facts cfg s e Hf HI) as [HI' HM]. pose proof (m_acc _ _ _ _ (HM mu Hmu)).
   apply IH; auto.
   - lia.
   - apply wait_step; auto.
@@ -248,22 +249,22 @@ Qed.
 
 (* the generic statement behind the Wait theorems, for any additive measure *)
 Lemma wait_covers_gen cfg s0 w mid mu :
-  additive mu -> Inv cfg s0 ->
+  additive mu -> faithful cfg -> Inv cfg s0 ->
   nth_error (cl s0) w = Some CIdle ->
   no_call_of w mid ->
   nth_error (cl (run cfg s0 (EvCall w CWait :: mid))) w = Some CIdle ->
   M_acc mu s0 <= M_done mu (run cfg s0 (EvCall w CWait :: mid)).
 Proof.
-  intros Hmu HI Hidle Hnc Hret.
-  destruct (exec_facts cfg s0 (EvCall w CWait) HI) as [HI' HM].
+  intros Hmu Hf HI Hidle Hnc Hret.
+  destruct (exec_facts cfg s0 (EvCall w CWait) Hf HI) as [HI' HM].
   pose proof (m_acc _ _ _ _ (HM mu Hmu)) as Hacc.
-  pose proof (wait_track cfg w mu (M_acc mu s0) Hmu mid (exec cfg s0 (EvCall w CWait)) HI' Hacc) as HT.
+  pose proof (wait_track cfg w mu (M_acc mu s0) Hmu Hf mid (exec cfg s0 (EvCall w CWait)) HI' Hacc) as HT.
   rewrite run_cons in Hret |- *.
   unfold G in HT at 2. rewrite Hret in HT. apply HT; auto.
   unfold G. rewrite (exec_call_wait cfg s0 w Hidle). exact I.
 Qed.
 
-Lemma wait_covers_l cfg n pre w mid :
+Lemma wait_covers_l cfg n pre w mid : faithful cfg ->
   let s0 := run cfg (init n) pre in
   let s1 := run cfg s0 (EvCall w CWait :: mid) in
   nth_error (cl s0) w = Some CIdle ->
@@ -271,13 +272,13 @@ Lemma wait_covers_l cfg n pre w mid :
   nth_error (cl s1) w = Some CIdle ->
   forall a, (count_occ Z.eq_dec (accepted s0) a <= count_occ Z.eq_dec (done_tasks s1) a)%nat.
 Proof.
-  intros s0 s1 Hidle Hnc Hret a.
-  pose proof (wait_covers_gen cfg s0 w mid (cntz a) (cntz_additive a) (run_inv cfg n pre)
+  intros Hf s0 s1 Hidle Hnc Hret a.
+  pose proof (wait_covers_gen cfg s0 w mid (cntz a) (cntz_additive a) Hf (run_inv cfg n pre Hf)
                 Hidle Hnc Hret) as H.
   fold s1 in H. rewrite <- (mu_done _ _ (cntz_additive a)) in H. unfold M_acc, cntz in H. lia.
 Qed.
 
-Lemma wait_covers_in cfg n pre w mid :
+Lemma wait_covers_in cfg n pre w mid : faithful cfg ->
   let s0 := run cfg (init n) pre in
   let s1 := run cfg s0 (EvCall w CWait :: mid) in
   nth_error (cl s0) w = Some CIdle ->
@@ -285,8 +286,8 @@ Lemma wait_covers_in cfg n pre w mid :
   nth_error (cl s1) w = Some CIdle ->
   forall a, In a (accepted s0) -> In a (done_tasks s1).
 Proof.
-  intros s0 s1 Hidle Hnc Hret a Ha.
-  pose proof (wait_covers_l cfg n pre w mid Hidle Hnc Hret a) as H. fold s0 s1 in H.
+  intros Hf s0 s1 Hidle Hnc Hret a Ha.
+  pose proof (wait_covers_l cfg n pre w mid Hf Hidle Hnc Hret a) as H. fold s0 s1 in H.
   apply (count_occ_In Z.eq_dec). apply (count_occ_In Z.eq_dec) in Ha. lia.
 Qed.
 
@@ -315,12 +316,12 @@ Proof.
   - intros p Hin. unfold mc_un. destruct (c_adding_zero_un p (Hz p Hin)) as (-> & _). exact H0.
 Qed.
 
-Lemma quiet_run cfg : forall evs s, Inv cfg s -> quiet s -> no_add_calls evs ->
+Lemma quiet_run cfg : faithful cfg -> forall evs s, Inv cfg s -> quiet s -> no_add_calls evs ->
   quiet (run cfg s evs) /\ forall mu, additive mu -> M_acc mu (run cfg s evs) = M_acc mu s.
 Proof.
-  induction evs as [|e evs IH]; intros s HI Hq Hn; [cbn; split; auto|]. rewrite run_cons.
+  intros Hf. induction evs as [|e evs IH]; intros s HI Hq Hn; [cbn; split; auto|]. rewrite run_cons.
   inversion Hn as [|? ? He Hn']; subst.
-  destruct (exec_facts cfg s e HI) as [HI' HM].
+  destruct (exec_facts cfg s e Hf HI) as [HI' HM].
   pose proof (m_adding _ _ _ _ (HM lenz lenz_additive) He) as Hadd.
   pose proof (sumz_nonneg c_adding (cl (exec cfg s e)) c_adding_nonneg).
   assert (Hq' : quiet (exec cfg s e)) by (unfold quiet in *; lia).
@@ -334,7 +335,7 @@ Proof.
   intros H. rewrite <- (firstn_skipn j l) in H. apply Forall_app in H. tauto.
 Qed.
 
-Lemma wait_quiescent_l cfg n pre w mid :
+Lemma wait_quiescent_l cfg n pre w mid : faithful cfg ->
   let s0 := run cfg (init n) pre in
   let s1 := run cfg s0 (EvCall w CWait :: mid) in
   nth_error (cl s0) w = Some CIdle ->
@@ -342,15 +343,15 @@ Lemma wait_quiescent_l cfg n pre w mid :
   nth_error (cl s1) w = Some CIdle ->
   places s1 = [] /\ Permutation (accepted s1) (done_tasks s1).
 Proof.
-  intros s0 s1 Hidle Hnc Hna Hq Hret.
-  pose proof (run_inv cfg n pre) as HI0. fold s0 in HI0.
+  intros Hf s0 s1 Hidle Hnc Hna Hq Hret.
+  pose proof (run_inv cfg n pre Hf) as HI0. fold s0 in HI0.
   assert (Hna' : no_add_calls (EvCall w CWait :: mid)) by (constructor; [discriminate | exact Hna]).
-  pose proof (wait_covers_gen cfg s0 w mid lenz lenz_additive HI0 Hidle Hnc) as H.
+  pose proof (wait_covers_gen cfg s0 w mid lenz lenz_additive Hf HI0 Hidle Hnc) as H.
   assert (Hd : M_acc lenz s0 <= M_done lenz s1).
   { apply H; auto. }
-  destruct (quiet_run cfg _ s0 HI0 Hq Hna') as [_ Hacc]. specialize (Hacc lenz lenz_additive).
+  destruct (quiet_run cfg Hf _ s0 HI0 Hq Hna') as [_ Hacc]. specialize (Hacc lenz lenz_additive).
   fold s1 in Hacc.
-  assert (HI1 : Inv cfg s1) by (apply run_inv_from, HI0).
+  assert (HI1 : Inv cfg s1) by (apply run_inv_from; [exact Hf | exact HI0]).
   pose proof (i_cons _ _ HI1 lenz lenz_additive) as Hc.
   pose proof (mu_places lenz s1 lenz_additive) as Hp.
   pose proof (lenz_nonneg (places s1)).
@@ -376,7 +377,7 @@ Proof. intros H; induction l as [|x l IH]; cbn; [lia | specialize (H x); lia]. Q
 
 Definition loop_alive (p : bpc) : Prop := p <> BDead /\ p <> BStop /\ forall f, p <> BExit f.
 
-Lemma restart_safe_l cfg n sched :
+Lemma restart_safe_l cfg n sched : faithful cfg ->
   let s := run cfg (init n) sched in
   (cont s <> [] ->
      guarded s = true \/
@@ -387,7 +388,7 @@ Lemma restart_safe_l cfg n sched :
      (forall c h, nth_error (cl s) c <> Some (CAddSend h)) /\
      (forall c, nth_error (cl s) c <> Some CAddConfirm)).
 Proof.
-  intros s. pose proof (run_inv cfg n sched) as HI. fold s in HI.
+  intros Hf s. pose proof (run_inv cfg n sched Hf) as HI. fold s in HI.
   split; [|split].
   - intros Hc. destruct (i_owner _ _ HI) as [H|[H|H]].
     + destruct (cont s); [congruence | cbn in H; lia].
@@ -427,7 +428,7 @@ Proof. unfold callback. destruct (panics cfg h); cbn; auto. Qed.
 (* ------------------------------------------------------------------ *)
 (* panicking callbacks, whole runs: simulation by the run in which they return normally *)
 
-Definition no_panic (cfg : config) : config := mkCfg (maxw cfg) (interval cfg) [].
+Definition no_panic (cfg : config) : config := mkCfg (maxw cfg) (interval cfg) [] (runs cfg).
 
 (* the state reached with panicking callbacks, computed from the state reached when the
    same callbacks return normally: same core, the log split by "would have panicked" *)
